@@ -9,17 +9,17 @@ VERIF = os.path.dirname(HERE)
 TEXT = {
     "C01": ("Lean theorems, all by induction with no bound, for EVERY table, string and flag combination: graph level C01_valence, C01_counts_consistent, C01_simple_graph, C01_forest (derivation + ring pass); writer level C01w_writer_eq_spec (the explicit-stack writer = a structural pre-order rendering), C01w_balanced, C01w_labels_paired, C01w_every_atom_once, C01w_decoder_atom_order, C01w_labels_legal_partial (<= 99 ring bonds; the overflow is C01w_label_overflow, finding F1); C01r_reader_recovers: the library's own parser reads the written SMILES back as exactly the decoder's graph (<= 99 rings, no ring across '.'). Tie: regenerated tables/state functions (GenEq) and differential correspondence of the output SMILES (all strings <= 3/4 symbols over a cover alphabet, stay-alive and uniform streams, several tables). The external-sanitizer clause is validated with RDKit only.",
             "§7 C01"),
-    "C02": ("Lean theorem C02_graph_eq_general: for every table, string and flag combination the decoder model's graph equals the graph of Spec/Derivation.lean - an independent, executable rendering of derivation.rst (count-down budget, declarative symbol classes, bond-list molecule, second-pass ring formation) - and the error classes agree (C02_reject_iff), for every result other than RecursionError (finding F2). 45 documented examples are kernel-checked against the spec. Tie: the real decoder is compared on every string <= 3/4 symbols over 28 symbols under 4 tables, plus sampled streams, BOTH with the model and with the independent spec through the driver.",
+    "C02": ("Lean theorem C02_graph_eq_general: for every table, string and flag combination the decoder model's graph equals the graph of Spec/Derivation.lean - an independent, executable rendering of derivation.rst (count-down budget, declarative symbol classes, bond-list molecule, second-pass ring formation) - and the error classes agree (C02_reject_iff), for every result other than RecursionError; C02s_decoder_eq_spec_string / C02s_api_outcomes (Props/C02s.lean): the returned STRING is the structural rendering of the spec molecule and the API function either returns it or raises DecoderError (spec rejects, or the body exhausts the stack). 45 documented examples are kernel-checked against the spec. Tie: the real decoder is compared on every string <= 3/4 symbols over 28 symbols under 4 tables, plus sampled streams, BOTH with the model and with the independent spec through the driver.",
             "§7 C02"),
     "C03": ("Lean theorems C03_decode_encode / C03_roundtrip_graph and, at the level of strings, C03p_roundtrip_strings (every SMILES the strict encoder accepts; the parser is PROVED to establish the graph hypotheses: C03p_parser_pwf, C03p_parser_forest, C03p_kekulized_ready; remaining hypotheses: spans < 16^3, nesting depth < recursion budget, length <= 10^4300): for every parsed, kekulized graph that obeys the table, encoding then decoding yields the same atoms in the same order and the same bonded pairs with the same orders (SameMolecule), with each atom's neighbour order = ring bonds in formation order then chain bonds (C03_neighbour_order) - a theorem about graphs, i.e. about every spelling at once; staged versions C03_chain, C03_tree; C03s_roundtrip_parsed / C03s_bonds_iff: the same on the OUTPUT STRING (the library's parser reads decoder(encoder(s)) back with the same atoms and exactly the same bonds); C05e_aromatic_end_to_end for aromatic input. Tie: correspondence of parser, kekulization (recorded tape), encoder, decoder on datasets, re-spellings (incl. ring digits behind branches), random trees, long spans; the independent reader judges the real round trip.",
             "§7 C03"),
-    "C04": ("Lean theorems C04_parity_spec / C04_parity_eq (the encoder's chirality flip is exactly the parity of the permutation between the written neighbour order and the decoder's order, for every graph), C04_inversions_parity (inversion count = transposition parity), C04_ring_marks / C04_chain_marks (every '/' '\\' mark is carried by the emitted symbol and read back on the right end; decide over the regenerated ring table). C04_end_to_end (string level): after encoder and decoder every atom's written neighbour order is the decoder order of its input row and its tag is flipped exactly when that permutation is odd.",
+    "C04": ("Lean theorems C04_parity_spec / C04_parity_eq (the encoder's chirality flip is exactly the parity of the permutation between the written neighbour order and the decoder's order, for every graph), C04_inversions_parity (inversion count = transposition parity), C04_ring_marks / C04_chain_marks (every '/' '\\' mark is carried by the emitted symbol and read back on the right end; decide over the regenerated ring table). C04_handedness_preserved / C04_marks_preserved (Props/C04h.lean, the property in semantic form: handedness = tag xor parity of the written neighbour order, equal on the two parsed graphs; every bond found again at the position decoderOrder dictates with the same mark). C04_end_to_end (string level): after encoder and decoder every atom's written neighbour order is the decoder order of its input row and its tag is flipped exactly when that permutation is odd.",
             "§7 C04"),
     "C05": ("Lean theorems: C05_greedy_valid/_total, C05_flip_valid, C05_bfs_path_alternating, C05_augment_sound_partial (sound whenever every augmenting path found is simple), C05_bipartite_sound and C05_bipartite_complete / C05_bipartite_decides (on bipartite graphs - all rings even - the routine returns a perfect matching exactly when one exists, for every legal tape; via a constructive Berge walk and completeness of the BFS), C05_kekulize_complete_bipartite, C05e_aromatic_end_to_end / C05e_rejects_without_kekule_structure / C05e_accepts_iff_kekule_structure_bipartite (the main clause end to end: decoder(encoder(s)) has the sigma skeleton, H and charges of s, every aromatic bond as 1 or 2, exactly one double bond at each atom that needs one and none at the others; EncoderError when no assignment exists, on bipartite systems), C05_kekulize_sound (exact result of kekulize given a perfect matching: sigma skeleton unchanged, one double bond per kept atom), C05_prune_standard_kinds (28 atom kinds, decide); unconditional soundness is FALSE (C05_no_blossom_witness / C05_soundness_false, finding F9). Tie: find_perfect_matching vs the model on EVERY subcubic graph <= 6/7 vertices + random graphs to 30 vertices with the recorded tape, brute force; aromatic systems in many atom orders judged per spelling by the independent reader. Completeness and order independence are bounded search by design.",
             "§7 C05"),
     "C06": ("Lean theorems C06_strict_iff / C06_strict_raises_iff (strict rejection <=> some atom's bond sum + explicit H exceeds its capacity, for every parse/kekulize result), C06_nonstrict_table_free (the non-strict result does not depend on the table), C06_strict_success_same_as_nonstrict, C06_capacity_key. Tie: correspondence of strict / non-strict encoding under changing tables on at/below/above-capacity molecules, sibling pairs differing only in explicit H, two-fragment combinations; independent bond count on the real code.",
             "§7 C06"),
-    "C07": ("Lean theorems C07_alphabet_contents (exact membership + Nodup for every table), C07_structural_symbols_valid, C07_atom_symbols_valid_partial with the exact proviso C07_atom_symbol_accepted_iff (charge <= 4300 digits; finding F10), C07_no_error (every string of valid symbols decodes without DecoderError; from the C08 proofs), C01_valence (outputs obey the table), C07_reflects_current_table. Tie: alphabet of every generated accepted table vs the model and the documented contents; every returned symbol and random strings over it decoded on the real code and judged by the independent reader.",
+    "C07": ("Lean theorems C07_alphabet_contents (exact membership + Nodup for every table), C07_structural_symbols_valid, C07_atom_symbols_valid at full strength (since the repair of finding F10 the key grammar bounds the charge digits: C07_charge_bound_needed, C07_long_charge_rejected), C07_alphabet_valid_any_history / C07_strings_decode_any_history (Props/C07f.lean: after ANY history of API calls every symbol of the alphabet of the table in force is accepted by the decoder, and every string over it decodes unless it nests deeper than the recursion budget: residual finding F2r), C07_no_error (from the C08 proofs), C01_valence (outputs obey the table), C07_reflects_current_table. Tie: alphabet of every generated accepted table vs the model and the documented contents; every returned symbol and random strings over it decoded on the real code and judged by the independent reader.",
             "§7 C07"),
     "C08": ("Lean theorems C08_total (full strength, Props/C08t.lean; the API function with the repair of finding F2 = Model/Api.lean decoderApi): for EVERY str, table and flag combination selfies.decoder returns or raises DecoderError; from C08_graph_total / C08_total_partial for the body (returns, DecoderError, or RecursionError on deep nesting) - every IndexError / KeyError / AttributeError / AssertionError / ValueError branch of the Python-semantics layer and fuel exhaustion (non-termination) are proved unreachable, for derivation, ring pass and writer; C08_no_recursion_error_if_shallow. Tie: exception class and result on malformed / arbitrary str x 4 flag combinations, and on table-dependent symbols decoded across a sequence of table changes, vs the model; constraint state compared before/after.",
             "§7 C08"),
@@ -29,7 +29,7 @@ TEXT = {
             "§7 C10"),
     "C11": ("Lean theorems C11_cache_coherent / C11_capacity_pure: after ANY history of API calls, rejected updates, cache fills, LRU evictions and caller mutations, the capacity cache agrees with the current table, so what the translators read is a function of the current table only (induction over all operation lists); C11t_table_only_through_capacity (decoder / encoder depend on the table only through the capacity function; the non-strict encoder not at all), C11t_translators_pure, C11t_history_independent (two histories ending in the same table translate alike). get_bonding_capacity and Atom.bonding_capacity are re-translated from the source on every run and proved equal to the model (GenEq3). Tied to the code by random histories on fresh imports compared with the model and with fresh interpreters (several hash seeds).",
             "§7 C11"),
-    "C12": ("Lean theorems over ALL histories (induction over operation lists on a state machine with object identity): C12_privacy_dicts, C12_presets_constant, C12_set_get, C12_reject_atomic, C12_validation (+ readable key grammar), C12_refines_value_map_partial; the full privacy statement is false for the returned alphabet (C12_alphabet_aliasing_witness, finding F7). Tied to the code by random histories with real mutation of real returned/passed objects on fresh imports.",
+    "C12": ("Lean theorems over ALL histories (induction over operation lists on a state machine with object identity): C12_privacy_dicts, C12_presets_constant, C12_set_get, C12_reject_atomic, C12_validation (+ readable key grammar, incl. the bound on charge digits introduced by the repair of F10: C12_validKey_charge_bound), C12_refines_value_map_partial; the full privacy statement is false for the returned alphabet (C12_alphabet_aliasing_witness, finding F7). Tied to the code by random histories with real mutation of real returned/passed objects on fresh imports.",
             "§7 C12"),
     "C13": ("Lean theorem C13_nop_invisible (and the stronger _items forms): for every well-formed item list and every insertion of [nop] symbols, all four flag combinations, the decoder model returns the same result (including attribution). Tied by decoder correspondence and by the equality on the real code.",
             "§7 C13"),
